@@ -619,7 +619,8 @@ def gen_probes(ck, quick):
         c, d, const = rnd(rng.choice([2, 3, 4, 4]))
         if const:      # all-constant trees fold: null-pointer-constant-ness is the model's blind spot
             continue
-        add(Probe(c, d, ("nested",)))
+        # deviation D4: clang carries the bit-field width through the comma operator
+        add(Probe(c, d, ("nested",), noclang=bool(re.search(r", bf_\w+\.f\)", c))))
     decls = preamble() + [l.decl for l in A + P if l.decl] + ["int c;"]
     return probes, decls
 
@@ -691,10 +692,23 @@ def run_cproc(cc, targ, path):
     return r.returncode, r.stdout, r.stderr
 
 
+def normalized(a):
+    """no qualifier set attached to an array type (mirror of Spec.normalize a = a)"""
+    k = a[0]
+    if k == "p":
+        return not (a[1] and a[2][0] == "a") and normalized(a[2])
+    if k == "a":
+        return not (a[1] and a[4][0] == "a") and normalized(a[4])
+    if k == "f":
+        return normalized(a[3]) and all(normalized(x) for x in a[4])
+    return True
+
+
 def classify(p):
     """finding id of a probe class that is a known/reported deviation, else None"""
-    if "*carr" in p.c:      # `*` applied to a decayed array with qualified elements drops the qualifiers
-        return "deref-array-qual"
+    if p.model and not normalized(p.model["ty"]):
+        # cproc attaches qualifiers to an array type itself instead of its element type (6.7.3p9)
+        return "qualified-array-type"
     return None
 
 
@@ -704,6 +718,7 @@ def run_kb(ck):
     os.makedirs(d, exist_ok=True)
     probes, decls = gen_probes(ck, ck.quick)
     hist = {}
+    reported = set()
     stats = {"probes": 0, "observed": 0, "spec_invalid_skipped": 0, "model_error_skipped": 0, "accepted_invalid": 0,
              "rejected_by_cproc": 0, "clang_checked": 0, "D4_deviation": 0}
     for targ, triple in TARGETS:
@@ -712,7 +727,7 @@ def run_kb(ck):
         for i, p in enumerate(probes):
             if p.model is None:
                 stats["model_error_skipped"] += 1
-            elif not p.model["ok"] and classify(p) is None:
+            elif not p.model["ok"]:
                 # the model types it but the Spec does not allow it: either an invalid expression
                 # cproc accepts (constraint checking is C10) or a Spec/model disagreement on a valid
                 # one -- the latter would contradict the theorems, so look at it through clang below
@@ -770,16 +785,22 @@ def run_kb(ck):
             fid = classify(p)
             if p.cls[0] == "D4":
                 stats["D4_deviation"] += 1
-            if fid and not p.model["ok"]:
-                # known deviation class: the code (and the model) give a type the Spec rejects
-                if not diff:
-                    ck.report({"kind": "kb-type", "target": targ, "expr": p.c, "code_type": p.model["txt"],
-                               "program": "const int carr[2] = {1, 2};\nint k = _Generic(&*carr, int *: 1, const int *: 2, default: 3);\n",
-                               "what": "cproc's type violates C11 (class %s): the code agrees with the model, the Spec rejects both" % fid},
-                              fid=fid)
+            if fid == "qualified-array-type":
+                # the model's AST is the code's AST; rendered as C (qualifiers on the element type) it is
+                # the type C11 specifies, which cproc does not consider compatible with its own
+                if set(diff) <= {"t"}:
+                    stats["qualified_array_type"] = stats.get("qualified_array_type", 0) + 1
+                    if fid in reported:
+                        continue
+                    reported.add(fid)
+                    ck.report({"kind": "kb-type", "target": targ, "expr": p.c, "code_type": p.model["txt"], "c11_type": cdecl(a),
+                               "program": "struct S { short a[2]; }; const struct S cs;\nconst short (*p)[2] = &cs.a;\n",
+                               "what": "a const/volatile-qualified array is not treated as an array of qualified elements (6.7.3p9): "
+                                       "pointer to it is incompatible with the declared pointer-to-array type"}, fid=fid)
                     continue
             if diff:
                 bad_n += 1
+                stats["mismatches"] = stats.get("mismatches", 0) + 1
                 if bad_n > 3:
                     continue
                 # what does the Spec say about the type the code really chose?
@@ -791,7 +812,7 @@ def run_kb(ck):
                               "what": "the type cproc gives this expression differs from the model's (which the Spec %s)"
                                       % ("accepts: so the code's type is not the one C11 specifies" if p.model["ok"] else "rejects")},
                              nofail=False if p.model["ok"] else True)
-        if ck.violations:
+        if bad_n or rejected:
             break
         # Spec validation through clang (can only mark the check broken)
         cl = [i for i in idx if not probes[i].noclang and classify(probes[i]) is None]
@@ -809,7 +830,9 @@ def run_kb(ck):
             lines.append('_Static_assert(_Generic((%s), %s: 1, default: 0), "P%d");' % (p.c, cdecl(a), i))
             amap[len(lines)] = i
             tw, twv = twin_type(a)
-            if tw:
+            # (clang gives an enumeration wider than int its underlying type under promotion, where the C11
+            # text says "unchanged": the identity of a wide enum result is not validated against clang)
+            if tw and a[0] != "e":
                 lines.append('_Static_assert(__builtin_types_compatible_p(__typeof__(%s), %s) == %d, "P%d");' % (p.c, cdecl(tw), twv, i))
                 amap[len(lines)] = i
         cpath = os.path.join(d, "v_%s.c" % targ)
@@ -826,8 +849,10 @@ def run_kb(ck):
                             msg, len(errs)))
     ck.cov["kb_stats"] = stats
     ck.cov["kb_histogram"] = hist
+    hard = bool(stats["rejected_by_cproc"] or stats.get("mismatches"))
     ck.sample({"K-B probe": probes[100].c, "driver": probes[100].d, "model": probes[100].model and probes[100].model["txt"]})
     ck.sample({"K-B probe": probes[-5].c, "driver": probes[-5].d, "model": probes[-5].model and probes[-5].model["txt"]})
+    return hard
 
 
 def probe_program(decls, p):
@@ -1040,9 +1065,10 @@ def run(ck):
     if not ck.drv_ok:
         raise Broken("drv_c05 does not build: %s" % ck.build_log[-1500:])
     run_ka(ck)
-    if not ck.violations:
-        run_kb(ck)
-    if not ck.violations:
+    hard = bool(ck.violations)
+    if not hard:
+        hard = run_kb(ck)
+    if not hard:
         run_kb_compat(ck)
     run_findings(ck)
     if (not ck.proofs_ok or gen_error) and not ck.violations:
